@@ -136,6 +136,8 @@ class Run(object):
     def step(self, e):
         a = e["a"]
         self.cons = []
+        # rf: Tor refuses the ATTACHSTREAM sent in this step
+        self.sim.handlers["ATTACHSTREAM"] = (lambda line: b"552 Unknown circuit\r\n") if e.get("rf") else (lambda line: None)
         try:
             if a == "CircStep":
                 c, to = e["c"], e["to"]
